@@ -74,6 +74,7 @@ def primitive_alphabet(n, env, level="full"):
                 ops.append(("sw", tuple(zip(sub, p))))
     if n >= 3:
         ops.append(("sw", ((0, 0), (1, 2), (2, 1))))            # complete dict with a fixed point
+    ops.append(("sw", ()))                                      # the empty dictionary: nothing moves
     for k in (2, 3):
         if k <= n:
             for m in range(0, n - k + 1):
